@@ -1296,6 +1296,11 @@ func c03exec(c *h.Ctx, cs *h.Case) {
 			if bufs, ok := c03hexList(tk[3]); ok {
 				obs = st.send(tk[2], bufs)
 			}
+		default:
+			// the operations of the round-4 deepening pass (c03r4.go)
+			if o, ok := st.r4op(tk); ok {
+				obs = o
+			}
 		}
 		cs.Impl = append(cs.Impl, obs)
 	}
@@ -1477,6 +1482,9 @@ func c03gen(c *h.Ctx, yield func(*h.Case)) {
 		"c03 cfg 4096 "+reg+" -",
 		fmt.Sprintf("c03 raw -,01,%s - %s", h.Hex(small(7)), h.Ints(bytes1(4+5+4+len(small(7))))),
 		fmt.Sprintf("c03 loop %s,%s,%s - %s", h.Hex(small(8)), h.Hex(small(9)), h.Hex(small(10)), h.Ints(bytes1(3*(4+len(small(8)))))))
+
+	// ---- the classes of the round-4 deepening pass (c03r4.go); their corpus cases come first
+	c03genR4(g, emit)
 
 	// ---- raw framing: random frame lists, random chunkings, cut or over-limit tails
 	for i := 0; i < c.Pick(1500, 30000); i++ {
